@@ -52,3 +52,24 @@ void h_span_page_of(void) {
     VC_REACH();
   }
 }
+static mi_slice_t* build_seg(void) {
+  mi_segment_t* s = malloc(sizeof(mi_segment_t));
+#ifdef VC_SI
+  g_si = VC_SI;      /* literal slice index (see contracts/seg_span.h) */
+#endif
+  __CPROVER_assume(s != NULL && g_si < MI_SLICES_PER_SEGMENT);
+  g_sseg = s;
+  return &s->slices[g_si];
+}
+void h_slice_split(void) {
+  span_ghosts(); g_c0 = vc_nondet_size("g_c0");
+  mi_segments_tld_t* tld; mi_slice_t* sl = build_seg();
+  mi_segment_slice_split(g_sseg, sl, vc_nondet_size("slice_count"), tld);
+  VC_REACH();
+}
+void h_coalesce(void) {
+  span_ghosts(); g_c0 = vc_nondet_size("g_c0"); g_nc = vc_nondet_size("g_nc"); g_ph = vc_nondet_size("g_ph"); g_nf = vc_nondet_bool("g_nf"); g_pf = vc_nondet_bool("g_pf");
+  mi_segments_tld_t* tld; mi_slice_t* sl = build_seg();
+  mi_slice_t* r = mi_segment_span_free_coalesce(sl, tld);
+  VC_REACH();
+}
